@@ -251,7 +251,21 @@ Definition disc_incr (t : tapc) (lower upper : Q) (vm tap : F) : Q :=
   else
     (if lo && flt tap (Some (t_max t)) then 1 else if hi && flt (Some (t_min t)) tap then -(1) else 0).
 Definition fadd (a : F) (b : Q) : F := match a with Some x => Some (qadd x b) | None => None end.
+(* control_step (:111-116, after "fix: DiscreteTapControl does not step past tap_min / tap_max from a fractional tap position"):
+   the new position is limited to the tap limit in the direction of the step *)
+Definition disc_new_tap (t : tapc) (lower upper : Q) (vm : F) (x : Q) : Q :=
+  let i := disc_incr t lower upper vm (Some x) in
+  let y := qadd x i in
+  if qltb 0 i then qmin y (t_max t) else if qltb i 0 then qmax y (t_min t) else y.
 Definition disc_step (t : tapc) (lower upper : Q) (s : cst) : cst :=
+  if t_ntd t then s else
+  let vm := get (t_bus t) (res s) in
+  match get (t_trafo t) (vars s) with
+  | Some x => with_vars s (set (t_trafo t) (Some (disc_new_tap t lower upper vm x)) (vars s))
+  | None => with_vars s (set (t_trafo t) None (vars s))          (* NaN stays NaN *)
+  end.
+(* before the repair: tap_pos += increment *)
+Definition disc_step_old (t : tapc) (lower upper : Q) (s : cst) : cst :=
   if t_ntd t then s else
   let vm := get (t_bus t) (res s) in
   let tap := get (t_trafo t) (vars s) in
@@ -309,10 +323,23 @@ Inductive kind :=
 | KConst
 | KChar (in_res : bool) (inp out : nat) (pts : list (Q * Q)) (tol : Q).
 
-(* CharacteristicControl.is_converged (:71-89) *)
+(* CharacteristicControl (after "fix: CharacteristicControl writes its set values in control_step, not in is_converged"):
+   is_converged (:71-87) computes self.values from the input and compares with the current output value; control_step
+   (:89-95) writes self.values.  In _control_step control_step follows is_converged of the same controller immediately, so
+   self.values is the characteristic of the input in the very state control_step sees: the model recomputes it there. *)
+Definition char_value (in_res : bool) (inp : nat) (pts : list (Q * Q)) (s : cst) : F :=
+  interp pts (get inp (if in_res then res s else vars s)).
 Definition char_conv (c : nat) (in_res : bool) (inp out : nat) (pts : list (Q * Q)) (tol : Q) (s : cst) : bool * cst :=
-  let x := get inp (if in_res then res s else vars s) in
-  let v := interp pts x in
+  let v := char_value in_res inp pts s in
+  let old := get out (vars s) in
+  let ok := match v, old with Some a, Some b0 => qltb (qabsv (qsub a b0)) tol | _, _ => false end in
+  (getb c (applied s) && ok, s).
+Definition char_step (c : nat) (in_res : bool) (inp out : nat) (pts : list (Q * Q)) (s : cst) : cst :=
+  let s1 := with_vars s (set out (char_value in_res inp pts s) (vars s)) in
+  with_applied s1 (setb c true (applied s1)).
+(* before the repair is_converged itself wrote the value *)
+Definition char_conv_old (c : nat) (in_res : bool) (inp out : nat) (pts : list (Q * Q)) (tol : Q) (s : cst) : bool * cst :=
+  let v := char_value in_res inp pts s in
   let old := get out (vars s) in
   let ok := match v, old with Some a, Some b0 => qltb (qabsv (qsub a b0)) tol | _, _ => false end in
   (getb c (applied s) && ok, with_vars s (set out v (vars s))).
@@ -331,16 +358,38 @@ Definition mk_ctrl (c : nat) (k : kind) : ctrl cst :=
       {| cid := c; c_conv := fun s => (getb c (applied s), s); c_step := setapp;
          c_repair := idf; c_init := idf; c_reset := idf; c_final := idf |}
   | KChar in_res inp out pts tol =>
-      {| cid := c; c_conv := char_conv c in_res inp out pts tol; c_step := setapp;
+      {| cid := c; c_conv := char_conv c in_res inp out pts tol; c_step := char_step c in_res inp out pts;
          c_repair := idf;
          c_init := fun s => with_applied s (setb c false (applied s));     (* initialize_control (:64-69) *)
          c_reset := idf; c_final := idf |}
+  end.
+
+(* the controllers as they were before the two repairs (regression witnesses) *)
+Definition mk_ctrl_old (c : nat) (k : kind) : ctrl cst :=
+  let idf := fun s : cst => s in
+  let setapp := fun s : cst => with_applied s (setb c true (applied s)) in
+  match k with
+  | KDisc t lo up =>
+      {| cid := c; c_conv := fun s => (disc_conv t lo up s, s); c_step := disc_step_old t lo up;
+         c_repair := idf; c_init := idf; c_reset := idf; c_final := idf |}
+  | KChar in_res inp out pts tol =>
+      {| cid := c; c_conv := char_conv_old c in_res inp out pts tol; c_step := setapp;
+         c_repair := idf; c_init := fun s => with_applied s (setb c false (applied s));
+         c_reset := idf; c_final := idf |}
+  | _ => mk_ctrl c k
   end.
 
 Definition entry := centry (nat * kind).
 Definition to_ctrl (e : entry) : ctrl cst := mk_ctrl (fst (e_obj e)) (snd (e_obj e)).
 
 (* run_control(net, max_iter, continue_on_divergence, check_each_level) on a controller table *)
+Definition to_ctrl_old (e : entry) : ctrl cst := mk_ctrl_old (fst (e_obj e)) (snd (e_obj e)).
+Definition run_net_old (max_iter : Z) (cod cel : bool) (cs : list entry) (s : cst)
+  : option (outcome * cst * list (ev cst)) :=
+  match ctrl_variables _ cs with
+  | None => None
+  | Some (co, ir) => Some (run_control cst run_stream max_iter cod cel ir (map (map to_ctrl_old) co) s)
+  end.
 Definition run_net (max_iter : Z) (cod cel : bool) (cs : list entry) (s : cst)
   : option (outcome * cst * list (ev cst)) :=
   match ctrl_variables _ cs with
